@@ -925,9 +925,15 @@ def load_corpus(hxbin, chk):
                                                                "%s x %s | %s" % (kind, obj["patch"], obj.get("queries", ""))])
         pr = Pristine(kind, lines[0])
         c, detail = classify(pr, lines[1], obj["patch"], bool(re.search(r"(^|,)t\d+", obj["patch"])))
-        if obj.get("expect") and c != obj["expect"] and c in ("different", "panic", "abort", "runaway"):
-            pass
-        out.append((fn[:-5], obj, lines[1], c if obj.get("expect") != c else "expected"))
+        for ln in lines:
+            if ln.startswith("ABORT"):
+                c = "abort"
+            elif "PANIC" in ln.split():
+                c = "panic"
+            elif max_alloc(ln) > 4 * (len(obj["bytes"]) // 2) + (6 << 20):
+                c = "abort"
+                obj = dict(obj, what_alloc="allocation of %d bytes" % max_alloc(ln))
+        out.append((fn[:-5], obj, lines[1], c))
     return out
 
 
